@@ -117,7 +117,12 @@ def monitor(spec, res, acc):
             continue
         cov["in_season_calls"] += 1
         sc = s["sc"] if s is not None else None
-        if c["dap"] == 1 or sc != cur_season:
+        # days after planting as the model's state has them, not as they were passed to irrigation()
+        dap = s["dap"] if (s is not None and s["gs"]) else c["dap"]
+        if dap != c["dap"]:
+            acc.add("dap-binding", f"step {t}: irrigation was evaluated for day {c['dap']} after planting, the "
+                    f"season is on day {dap}", dict(t=t, passed=c["dap"], actual=dap))
+        if dap == 1 or sc != cur_season:
             total = 0.0
             cur_season = sc
         if s is not None and s["gs"] and method != 4 and s["flux"][FX["IrrDay"]] != I_:
@@ -146,10 +151,10 @@ def monitor(spec, res, acc):
                     dict(t=t, total=total + I_, cap=cap_season))
         day = s["date"].date() if s is not None else None
         if method == 2:
-            on_day = interval > 0 and (c["dap"] - 1) % interval == 0
+            on_day = interval > 0 and (dap - 1) % interval == 0
             if I_ > 0 and not on_day:
-                acc.add("interval-day", f"step {t}: irrigation on day {c['dap']} after planting, interval {interval}",
-                        dict(t=t, dap=c["dap"], interval=interval))
+                acc.add("interval-day", f"step {t}: irrigation on day {dap} after planting, interval {interval}",
+                        dict(t=t, dap=dap, interval=interval))
             if on_day:
                 cov["interval_days"] += 1
                 if I_ > 0:
@@ -170,11 +175,11 @@ def monitor(spec, res, acc):
             if want > 0:
                 cov["constant_events"] += 1
         elif method == 1:
-            stage = 1 if c["dap"] == 1 else int(c["stage"])
+            stage = 1 if dap == 1 else int(c["stage"])
             if stage not in (1, 2, 3, 4):
                 acc.add("growth-stage", f"step {t}: growth stage {c['stage']!r} on day {c['dap']}", dict(t=t))
                 stage = min(max(stage, 1), 4)
-            if sc in last_stage and stage < last_stage[sc] and c["dap"] != 1:
+            if sc in last_stage and stage < last_stage[sc] and dap != 1:
                 acc.add("growth-stage", f"step {t}: growth stage fell from {last_stage[sc]} to {stage}", dict(t=t))
             last_stage[sc] = stage
             D, taw = c["depletion"], c["taw"]
